@@ -1,3 +1,12 @@
-//! C12 for the hook-less families: attached when those explorers are merged in.
+//! C12 for the hook-less families (Bloom, Count-Min, Frequent Items, t-digest).
 use crate::common::Ctx;
-pub fn run(_ctx: &Ctx) {}
+use crate::obs;
+use rayon::prelude::*;
+
+pub fn run(ctx: &Ctx) {
+    let jobs: Vec<Box<dyn Fn() + Sync + Send>> = vec![
+        Box::new(|| crate::c08::explore(ctx, &obs::cm_spec)),
+        Box::new(|| crate::c09::explore(ctx, &obs::bloom_spec)),
+    ];
+    jobs.par_iter().for_each(|j| j());
+}
